@@ -130,6 +130,7 @@ let err_out (e : errk) : ostring * ostring = match e with
   | ManifestFunction -> ("ManifestFunction", "-")
   | CompareFunctions -> ("CompareFunctions", "-")
   | InvalidStdFuncArgType -> ("InvalidStdFuncArgType", "-")
+  | NumberOverflow -> ("NumberOverflow", "-")
   | OutOfFragment w -> ("OOF", string_of_coq w)
 
 let handle (fields : ostring list) : ostring =
